@@ -93,7 +93,7 @@ def check(argv):
     params = KC.tier_params(tier)
     from contracts import idexpr
 
-    idexpr.run(report, {"context"})
+    report.guarded("context contracts", idexpr.run, report, {"context"})
     fam = KC.family_for(tier, seed, params["per_assignment"] * 2)
     t0 = time.time()
     with mp.get_context("fork").Pool(16) as pool:
